@@ -95,7 +95,7 @@ def _run_variant(args):
 
 
 GLOBAL_VARIANTS = [V(f'whole-package:{t}', None, [], expect='silent', transform=t)
-                   for t in ('unparse', 'rename', 'swapcmp', 'pad', 'ifnot', 'pos2kw')]
+                   for t in ('unparse', 'rename', 'swapcmp', 'pad', 'ifnot', 'pos2kw', 'retvar', 'elseexit', 'msg')]
 
 
 def _variants(mod):
